@@ -108,12 +108,13 @@ def make_case(cid, rng, mix):
     g.blockfirst = rng.random() < mix.get('blockfirst', 0.25)
     g.loops = rng.random() < mix.get('loops', 0.3)
     g.withs = rng.random() < mix.get('withs', 0.2)
-    if rng.random() < 0.08:
+    if rng.random() < 0.12:
         # a program that consists of the injected shapes only: few executions, so the exhaustive exploration always fits the budget
         g.tiny = True
         g.single = False
-        g.loops = True
+        g.loops = rng.random() < 0.6
         g.withs = rng.random() < 0.5
+        g.multi = True
     body, nsites, nreads = prog.number(g.program())
     locals_ = sorted(prog.bound_names(body))
     pre = []
